@@ -282,6 +282,21 @@ theorem no_panic_vector_nth (f : Bytes → Out CqlVal) (hf : ∀ b s, f b ≠ .p
   vecNthFixedP_np f hf size remaining n bs hr site
 
 open ScyllaVerif.C08V in
+/-- The three overflow / underflow tests in front of `nth`'s arithmetic (`n + 1`, `remaining - (n + 1)`, `remaining -
+n`) are all dead behind the single early return `n >= remaining`: nothing but that comparison is needed. -/
+theorem vector_nth_guards_dead (remaining n : Nat) (hr : remaining ≤ USIZE_MAX) (hn : ¬ n ≥ remaining) :
+    ¬ (n + 1 > USIZE_MAX) ∧ ¬ (remaining < n + 1) ∧ ¬ (remaining < n) :=
+  vecNth_guards_dead remaining n hr hn
+
+open ScyllaVerif.C08V in
+/-- `nth` / `next` on a vector of VARIABLE-length elements (value.rs `VectorIterator`, the default `nth` = `n` times
+`next` then `next`; each `next` reads an unsigned vint length then that many bytes): never a panic, every `n`. -/
+theorem no_panic_vector_nth_var (f : Bytes → Out CqlVal) (hf : ∀ b s, f b ≠ .panic s) (n remaining : Nat)
+    (bs : Bytes) (site : String) :
+    vecNthVarP f n remaining bs ≠ .panic site ∧ vecNextVarP f remaining bs ≠ .panic site :=
+  ⟨vecNthVarP_np f hf n remaining bs site, vecNextVarP_np f hf remaining bs site⟩
+
+open ScyllaVerif.C08V in
 theorem no_panic_size_hints (r : Nat) (site : String) :
     vecSizeHintP r ≠ .panic site ∧ mapSizeHintP r ≠ .panic site :=
   ⟨vecSizeHintP_np r site, mapSizeHintP_np r site⟩
